@@ -670,6 +670,17 @@ func c19(c *Ctx) {
 		}
 		bh := w.Func(P, "(*BackendHandler).DispatchEvent")
 		ide := w.Func(P, "(*BackendHandler).internalDispatchEvent")
+		ideInline := false
+		if bh != nil && ide == nil {
+			// the per-backend delivery may be written directly in the goroutine literal of DispatchEvent
+			for _, g := range WithAnon(bh)[1:] {
+				for _, cl := range callsIn(g) {
+					if cl.Common().IsInvoke() && cl.Common().Method.Name() == "SendEvent" {
+						ide, ideInline = g, true
+					}
+				}
+			}
+		}
 		if bh == nil || ide == nil {
 			r.Unresolved("(*BackendHandler).DispatchEvent / internalDispatchEvent")
 			return
@@ -719,7 +730,26 @@ func c19(c *Ctx) {
 			if mc, ok := g.Call.Value.(*ssa.MakeClosure); ok {
 				cl := mc.Fn.(*ssa.Function)
 				n := 0
+				if ideInline && cl == ide {
+					// the literal sends by itself: its backend is this iteration's, its event the handler's argument
+					for _, cc := range callsIn(cl) {
+						if cc.Common().IsInvoke() && cc.Common().Method.Name() == "SendEvent" {
+							n++
+							org := goValueOrigin(g, cl, cc.Common().Value)
+							r.Check("BackendHandler:goroutine-gets-this-backend", org != nil && isLoopBackend(org), g.Pos(), "the goroutine's backend is "+pathOf(org))
+							r.Check("BackendHandler:dispatches-to-own-backend", org != nil && valueName(cc.Common().Args[1]) == "e", cc.Pos(), "backend.SendEvent(ctx, e)")
+						}
+					}
+					m := countOnPaths(cl, func(in ssa.Instruction) bool {
+						cc, ok := in.(ssa.CallInstruction)
+						return ok && cc.Common().IsInvoke() && cc.Common().Method.Name() == "SendEvent"
+					})
+					r.Check("BackendHandler:goroutine-dispatches-once", n == 1 && m == 2, cl.Pos(), "SendEvent over all paths = "+maskString(m))
+				}
 				for _, cc := range callsIn(cl) {
+					if ideInline {
+						break
+					}
 					if staticCallee(cc) == ide {
 						n++
 						aa := cc.Common().Args
@@ -728,11 +758,13 @@ func c19(c *Ctx) {
 						r.Check("BackendHandler:dispatches-to-own-backend", org != nil && valueName(aa[3]) == "e", cc.Pos(), "internalDispatchEvent(ctx, b, e)")
 					}
 				}
-				m := countOnPaths(cl, func(in ssa.Instruction) bool {
-					cc, ok := in.(ssa.CallInstruction)
-					return ok && staticCallee(cc) == ide
-				})
-				r.Check("BackendHandler:goroutine-dispatches-once", n == 1 && m == 2, cl.Pos(), "internalDispatchEvent over all paths = "+maskString(m))
+				if !ideInline {
+					m := countOnPaths(cl, func(in ssa.Instruction) bool {
+						cc, ok := in.(ssa.CallInstruction)
+						return ok && staticCallee(cc) == ide
+					})
+					r.Check("BackendHandler:goroutine-dispatches-once", n == 1 && m == 2, cl.Pos(), "internalDispatchEvent over all paths = "+maskString(m))
+				}
 			}
 			// dispatched counter incremented with the go
 			okInc := false
@@ -806,7 +838,9 @@ func c19(c *Ctx) {
 		})
 		r.Check("internalDispatchEvent:done-deferred", okDone, ide.Pos(), "eventWg.Done() is deferred before the send, so it runs on every path")
 		r.Check("internalDispatchEvent:slot-released-on-every-path", okRel, ide.Pos(), "the concurrentEvents slot is released by a defer registered before SendEvent (a failed send must not keep the slot)")
-		r.Check("internalDispatchEvent:sends-to-its-backend", paramIndex(ide, send.Common().Value) == 2 && paramIndex(ide, send.Common().Args[1]) == 3, send.Pos(), "backend.SendEvent(ctx, e)")
+		if !ideInline {
+			r.Check("internalDispatchEvent:sends-to-its-backend", paramIndex(ide, send.Common().Value) == 2 && paramIndex(ide, send.Common().Args[1]) == 3, send.Pos(), "backend.SendEvent(ctx, e)")
+		}
 		// forwarder
 		fd := w.Func(P, "(*HttpForwarderHandlerV2).DispatchEvent")
 		fde := w.Func(P, "(*HttpForwarderHandlerV2).dispatchEvent")
